@@ -4,7 +4,7 @@ from __future__ import annotations
 
 import numpy as np
 
-from vp.evalmodel import kinematics_function, scalar_function
+from vp.evalmodel import fast_scalar_function, kinematics_function
 
 
 class ModelEvaluator:
@@ -16,7 +16,7 @@ class ModelEvaluator:
         defaults = dict(model.parameter_defaults.items())
         self.defaults = defaults
         self.kin = kinematics_function(model.kinematic_variables, defaults, cse)
-        self.intensity = scalar_function(model.expression, cse=True)
+        self.intensity = fast_scalar_function(model.expression)
         self.parameters = [s for s in self.intensity.symbols if s in defaults]
         self.variables = [s for s in self.intensity.symbols if s not in defaults]
 
